@@ -30,6 +30,7 @@ func Thorough() bool
 func Concrete(v any) bool
 func Replace(target string, fn any)
 func Native() bool
+func WaitGhostNe(obj any, key string, old int) // blocks the goroutine until the ghost value differs from old
 func RaceMonitor() // lockset (Eraser) race monitor over every heap cell touched by the code under test
 func NativeUnsupported(why string)
 func ReplaceSym(target string, fn any) // like Replace, but the native replay runs the real function
@@ -340,3 +341,14 @@ func ModelSyncMapClear(m *sync.Map) {
 	sm.keys = nil
 	sm.vals = map[any]any{}
 }
+
+// ---------- sync.Cond: a generation counter; Wait releases L, blocks until the next Signal/Broadcast, reacquires L ----------
+
+func ModelCondWait(c *sync.Cond) {
+	gen := GhostGet(c, "gen")
+	c.L.Unlock()
+	WaitGhostNe(c, "gen", gen)
+	c.L.Lock()
+}
+
+func ModelCondNotify(c *sync.Cond) { GhostSet(c, "gen", GhostGet(c, "gen")+1) }
